@@ -326,7 +326,12 @@ def exc_name(ex):
     n = type(ex).__name__
     if isinstance(ex, Watchdog):
         return "Watchdog"
-    return n if n in EXC else "other:" + n
+    if n in EXC:
+        return n
+    for base in (AssertionError, NotImplementedError, TypeError, ValueError, OverflowError, ZeroDivisionError, RecursionError):
+        if isinstance(ex, base):
+            return base.__name__
+    return "other:" + n
 
 
 @contextlib.contextmanager
